@@ -168,6 +168,14 @@ def check(case, obs):
         if obs.claim('partial', not raised(f), lambda: 'get_transform_fxn with stubs raised %r' % (f,)):
             o = call(f, data, ch_arg if ch_arg is not None else sc_ch)
             same_result(o, 'the callable returned by get_transform_fxn')
+            # a calibration made later (other curves) must not change the callable returned earlier
+            other = [_curve(c * 7.0 + 1.0, 2.0 - p) for c, p in case['curves']]
+            it2 = iter(range(10 ** 6))
+            call(FlowCal.mef.get_transform_fxn, d, [[1.0, 2.0]] * k, mef_channels=sc_ch, clustering_fxn=clustering,
+                 clustering_channels=[sc_ch[0]], selection_fxn=None,
+                 fitting_fxn=lambda rfi, mef, **kw: (other[next(it2)], None, np.zeros(3), 'stub', ['m', 'b', 'a']))
+            same_result(call(f, data, ch_arg if ch_arg is not None else sc_ch),
+                        'the callable returned by get_transform_fxn, after a later calibration,')
             if [j for j in range(D) if j not in sc]:
                 unc = [j for j in range(D) if j not in sc][0]
                 obs.claim('refuse', raised(call(f, data, names[unc])), 'returned callable converted a channel without curve')
